@@ -5,6 +5,8 @@ import (
 	"fmt"
 	"go/types"
 	"strings"
+
+	"golang.org/x/tools/go/ssa"
 )
 
 // In-engine file system, decoder stubs and fault / crash oracles.
@@ -648,4 +650,87 @@ func (i *interpreter) decideBools(v value) value {
 		return &c
 	}
 	return v
+}
+
+// ---- *os.File (read side) ----
+
+type openFile struct {
+	path string
+	data []value
+	pos  int
+}
+
+func (i *interpreter) fileObj(p value) *openFile {
+	fp, ok := p.(*value)
+	if !ok || fp == nil {
+		panic(runtimeErr("invalid memory address or nil pointer dereference (*os.File)"))
+	}
+	of := i.env.open[fp]
+	if of == nil {
+		i.abort(abortUnsupported, "*os.File not created by the os.Open stub")
+	}
+	return of
+}
+
+func init() {
+	externals["os.Open"] = func(fr *frame, a []value) value {
+		i := fr.i
+		e := i.env
+		path := pathArg(i, a[0])
+		e.reads[path]++
+		osp := i.prog.ImportedPackage("os")
+		nilFile := (*value)(nil)
+		if f := e.takeReadFault(path); f != 0 {
+			return tuple{nilFile, i.pathError("open", path, f)}
+		}
+		fl := e.file(path)
+		if fl == nil {
+			return tuple{nilFile, i.pathError("open", path, enoent)}
+		}
+		var cell value = zero(osp.Type("File").Type())
+		fp := &cell
+		if e.open == nil {
+			e.open = map[*value]*openFile{}
+		}
+		of := &openFile{path: path, data: fl.data}
+		if fl.isDir {
+			of.data = nil
+			of.path = path + "/" // marker: reads fail with EISDIR
+		}
+		e.open[fp] = of
+		return tuple{fp, iface{}}
+	}
+	externals["(*os.File).Read"] = func(fr *frame, a []value) value {
+		i := fr.i
+		of := i.fileObj(a[0])
+		buf := a[1].([]value)
+		if strings.HasSuffix(of.path, "/") {
+			return tuple{0, i.pathError("read", of.path, eisdir)}
+		}
+		if len(buf) == 0 {
+			return tuple{0, iface{}}
+		}
+		if of.pos >= len(of.data) {
+			iop := i.prog.ImportedPackage("io")
+			i.ensureInit(iop)
+			g := iop.Members["EOF"].(*ssa.Global)
+			return tuple{0, *i.shared[g]}
+		}
+		n := copy(buf, of.data[of.pos:])
+		of.pos += n
+		return tuple{n, iface{}}
+	}
+	externals["(*os.File).Close"] = func(fr *frame, a []value) value { return iface{} }
+	harnessAPI["verifAllocBound"] = func(fr *frame, a []value) value {
+		// verifAllocBound(n): from now on every allocation whose size is symbolic
+		// (i.e. derives from input) must be <= n elements; violations are findings
+		fr.i.allocBound = asInt64(a[0])
+		fr.i.allocBoundSet = true
+		fr.i.allocMsg = nameArg(a[1])
+		return nil
+	}
+	harnessAPI["verifAllocCheck"] = func(fr *frame, a []value) value {
+		fr.i.allocBoundSet = false
+		return nil
+	}
 }
